@@ -115,7 +115,8 @@ def key_to_coq(k):
 
 
 def pairs_to_coq(pairs):
-    return Raw("[" + "; ".join("(%s, %s)" % (to_coq(key_to_coq(k)), to_coq(val_to_coq(v))) for k, v in pairs) + "]")
+    """a Python dict built from these (key, value) pairs"""
+    return Raw("(mdict [" + "; ".join("(%s, %s)" % (to_coq(key_to_coq(k)), to_coq(val_to_coq(v))) for k, v in pairs) + "])")
 
 
 def _s(x):
